@@ -11,6 +11,7 @@ pub mod selftest;
 pub mod c01;
 pub mod c02;
 pub mod c13;
+pub mod c14;
 pub mod c15;
 pub mod c16;
 pub mod e1;
@@ -231,6 +232,7 @@ pub fn run(id: &str, tier: Tier, rest: &[String]) -> i32 {
         "C01" => c01::run(tier, part),
         "C02" => c02::run(tier, part),
         "C13" => c13::run(tier, part),
+        "C14" => c14::run(tier, part),
         "C15" => c15::run(tier, part),
         "C16" => c16::run(tier, part),
         _ => {
@@ -256,6 +258,7 @@ pub fn replay(file: &str) -> i32 {
         "C01" => c01::replay(&doc["replay"]),
         "C02" => c02::replay(tier, &doc["replay"]),
         "C13" => c13::replay(&doc["replay"]),
+        "C14" => c14::replay(&doc["replay"]),
         "C15" => c15::replay(&doc["replay"]),
         "C16" => c16::replay(&doc["replay"]),
         _ => {
